@@ -19,7 +19,7 @@ RULE = ('case = outcome word over {delivered+acked, uplink lost, ack lost} (ALL 
         'submission schedule, observed frame-sequence hash).')
 ASSUMPTIONS = ['peer model = nRF51 ESB safelink rules (see vf/radiosim.py)', 'each transmission costs 1 ms of virtual time',
                'null packet = header 0xFF/0xF3 with empty payload; the 3-byte ff 05 01 negotiation frame is not data']
-REQUIRED = ['mon.scans_with_the_dongle_while_links_are_open', 'mon.cases_with_several_links_over_one_dongle', 'mon.full_stack_cases_with_a_dongle_transaction_of_more_than_a_second', 'mon.slow_link_cases_without_error_callback', 'mon.packets_refused_after_waiting_for_the_queue', 'mon.downlink_link_service_packets_with_data', 'mon.acknowledgements_without_payload', 'mon.words_exhaustive', 'mon.random_words', 'mon.uplink_packets', 'mon.downlink_packets', 'mon.downlink_header_only_packets', 'mon.uplink_header_only_packets', 'mon.link_errors_expected',
+REQUIRED = ['mon.full_stack_cases_on_a_driver_object_that_carried_an_earlier_link', 'mon.scans_with_the_dongle_while_links_are_open', 'mon.cases_with_several_links_over_one_dongle', 'mon.full_stack_cases_with_a_dongle_transaction_of_more_than_a_second', 'mon.slow_link_cases_without_error_callback', 'mon.packets_refused_after_waiting_for_the_queue', 'mon.downlink_link_service_packets_with_data', 'mon.acknowledgements_without_payload', 'mon.words_exhaustive', 'mon.random_words', 'mon.uplink_packets', 'mon.downlink_packets', 'mon.downlink_header_only_packets', 'mon.uplink_header_only_packets', 'mon.link_errors_expected',
             'mon.negotiation_loss_cases', 'mon.no_safelink_cases', 'mon.full_stack_cases', 'mon.multi_submitter_cases',
             'mon.second_start_up_of_the_same_driver_object']
 EXHAUSTIVE = {'quick': False, 'thorough': False}
@@ -496,6 +496,19 @@ def run_stack(desc, ctx, rnd):
         rd.RadioManager._lock = ds.Semaphore(1)
         rd.set_retries_before_disconnect(100)
         drv = rd.RadioDriver()
+        if desc['seed'] % 4 == 1:
+            # the same driver object carried an earlier link; the application closed it without reading the last packets
+            key = (chan, rate, addr)
+            peer0 = radiosim.Peer()
+            dev.peers[key] = peer0
+            for i_ in range(4):
+                peer0.queue(bytes([0x5C, 0xEE, i_]))
+            drv.connect(uri, None, lambda m: ob['err'].append('earlier link: ' + m[:60]))
+            s.sleep(0.3)
+            drv.close()
+            s.sleep(0.1)
+            dev.peers[key] = peer
+            ob['earlier_link'] = len(peer0.queue_left()) if hasattr(peer0, 'queue_left') else True
         drv.connect(uri, None, lambda m: ob['err'].append(m[:60]))
         for u in ups:
             if drv.send_packet(CRTPPacket(u[0], list(u[1]))):
@@ -513,6 +526,8 @@ def run_stack(desc, ctx, rnd):
         cr._find_devices = old_find
     ctx.evals()
     ctx.count('mon.full_stack_cases')
+    if ob.get('earlier_link') is not None:
+        ctx.count('mon.full_stack_cases_on_a_driver_object_that_carried_an_earlier_link')
     ctx.count('mon.full_stack_cases_with_a_dongle_transaction_of_more_than_a_second', dev.stalled)
     info = {'uri': uri, 'uplink': len(ups), 'downlink': len(downs)}
     if abort is not None:
